@@ -116,7 +116,6 @@ def shards(tier, seed):
     full, wide = plan(tier)
     out = []
     for bits in full:
-        n = 1 << bits
         parts = 1 if bits <= 7 else (4 if bits <= 9 else 16)
         for j in range(parts):
             out.append(["full", bits, j, parts])
